@@ -132,6 +132,7 @@ class Model:
         self._implicit_hash()
         self._switch_tables()
         self._registry()
+        self._roles()
 
     # ------------------------------------------------------------------ loading
     def _load_module(self, mod, tree):
@@ -371,6 +372,34 @@ class Model:
                 if f:
                     out.append(f)
         return out
+
+    def _roles(self):
+        """Helper roles recognised by shape, not by name: the range validator and the operand promoter."""
+        self.validators, self.promoters = set(), set()
+        for c in FAMILY:
+            ci = self.classes.get(c)
+            if ci is None:
+                continue
+            for name, f in ci.methods.items():
+                ps = f.params()
+                if len(ps) == 3 and not f.is_classmethod():
+                    a, b = ps[1], ps[2]
+                    rets = [x for x in ast.walk(f.node) if isinstance(x, ast.Return) and isinstance(x.value, ast.Tuple) and
+                            [getattr(e, 'id', None) for e in x.value.elts] == [a, b]]
+                    chk = [x for x in ast.walk(f.node) if isinstance(x, ast.If) and any(isinstance(y, ast.Raise) for y in x.body) and
+                           {a, b} <= {n.id for n in ast.walk(x.test) if isinstance(n, ast.Name)} and 'len(self)' in ast.unparse(x.test)]
+                    if rets and chk:
+                        self.validators.add(name)
+                if f.is_classmethod() and len(ps) == 2:
+                    arg = ps[1]
+                    for x in ast.walk(f.node):
+                        if isinstance(x, ast.If) and ast.unparse(x.test) == f'isinstance({arg}, {ps[0]})' and x.body and \
+                                isinstance(x.body[0], ast.Return) and ast.unparse(x.body[0].value) == arg:
+                            self.promoters.add(name)
+        if not self.validators:
+            raise AnalysisError('anchor vanished: no (start, end) range validator found on the bitstring classes')
+        if not self.promoters:
+            raise AnalysisError('anchor vanished: no operand-promotion classmethod (returns its argument when it already is a cls) found')
 
     # ------------------------------------------------------------------ resolution helpers
     def lookup(self, cls, name, modes=('msb0', 'lsb0')):
